@@ -482,6 +482,14 @@ for _fn in ('run_as_initiator', 'run_as_target'):
 L = 'nfc.llcp.llc'
 T = 'nfc.llcp.tco'
 MUTANTS = [
+    ('tco-close-early-return', 'nfc.llcp.tco', """    def close(self):
+        with self.lock:
+            self.send_queue.clear()""", """    def close(self):
+        with self.lock:
+            if self.state.SHUTDOWN:
+                return
+            self.send_queue.clear()""", 'C09-R3'),
+    ('target-deactivate-deadline-per-request', 'nfc.dep', "                if req.pfb.fmt == DEP_REQ.Attention:", "                deadline = time.time() + 1.0\n                if req.pfb.fmt == DEP_REQ.Attention:", 'C09-R8'),
     ('terminate-reads-table-entry-twice', 'nfc.llcp.llc', """                sap = self.sap[i]  # may be removed by a closing socket
                 if sap is not None:
                     log.debug("closing service access point %d" % i)
